@@ -340,11 +340,20 @@ func twoColumn(raw json.RawMessage, c *ucase) {
 			PeriodType: &profile.ValueType{Type: "cpu", Unit: spellOut(u1)}, Period: 1, Sample: []*profile.Sample{{Value: []int64{v1, v2}}}}
 	}
 	// order: which profile comes first; order >= 2: the column that needs converting is the FIRST one and the last agrees
-	for _, order := range []int{0, 1, 2, 3} {
-		ps := []*profile.Profile{mk(ua, ua, 7, 11), mk(ua, ub, 5, 3)}
+	// orders 4..11: the column whose units already agree (ratio 1) holds values a float64 cannot carry
+	// (2^53+1, -(2^60+3), the int64 extremes): harmonising the OTHER column must leave them bit for bit
+	for _, order := range []int{0, 1, 2, 3, 4, 5, 6, 7, 8, 9, 10, 11} {
+		a1, a2 := int64(7), int64(5)
+		switch order / 4 {
+		case 1:
+			a1, a2 = 1<<53+1, -(1<<60 + 3)
+		case 2:
+			a1, a2 = math.MaxInt64, math.MinInt64+1
+		}
+		ps := []*profile.Profile{mk(ua, ua, a1, 11), mk(ua, ub, a2, 3)}
 		units := [][]unit{{ua, ua}, {ua, ub}}
-		if order >= 2 {
-			ps = []*profile.Profile{mk(ua, ua, 7, 11), mk(ub, ua, 5, 3)}
+		if order%4 >= 2 {
+			ps = []*profile.Profile{mk(ua, ua, 7, a1), mk(ub, ua, 5, a2)}
 			units = [][]unit{{ua, ua}, {ub, ua}}
 		}
 		if order%2 == 1 {
